@@ -68,6 +68,10 @@ TECHNIQUE = {
     "C06": _KANI + _MIR_HANDLE,
     "C03": _KANI + ("; plus z3 queries over a symbolic execution of the rustc MIR of VarlinkService::new and VarlinkService::call with "
                     "contract models for HashMap (the populated interface table), witnesses replayed natively"),
+    "C05": _KANI + ("; plus z3 queries over a symbolic execution of the rustc MIR of <MethodCall as Iterator>::next, MethodCall::more, "
+                    "MethodCall::call and MethodCall::recv (the client half: one step from an arbitrary state of the continues "
+                    "flag and the stream slots, callees replaced by contract models), witnesses confirmed natively on real "
+                    "Connection / MethodCall objects over scripted reply streams"),
     "C15": "z3 (SMT) over a path-by-path symbolic execution of the rustc MIR of varlink::listen (dumped from /repo on every run) with "
            "the environment as nondeterministic stubs: every accept yields a connection / a timeout / an error, every read of the "
            "stop flag and the busy count an arbitrary value, time = the sum of the waits that timed out, idle_timeout symbolic; "
